@@ -221,7 +221,8 @@ class SourceView:
     def __init__(self, src):
         self.lines = src.split('\n')
         self.tree = ast.parse(src)
-        self.toplevel = {}        # name -> (first line, last line) of module-level functions and methods
+        self.toplevel = {}        # 'name@line' -> (first line, last line) of module-level functions and methods
+        self.toplevel_names = set()
         self.defs = []            # (first, last, name) of every def, for innermost-def lookup
         for node in ast.walk(self.tree):
             if isinstance(node, (ast.FunctionDef, ast.AsyncFunctionDef)):
@@ -229,11 +230,16 @@ class SourceView:
                 self.defs.append((first, node.end_lineno, node.name, node.lineno))
         for node in self.tree.body:
             if isinstance(node, ast.FunctionDef):
-                self.toplevel[node.name] = (node.lineno, node.end_lineno)
+                self.toplevel['%s@%d' % (node.name, node.lineno)] = (node.lineno, node.end_lineno)
+                self.toplevel_names.add(node.name)
             if isinstance(node, ast.ClassDef):
                 for st in node.body:
                     if isinstance(st, ast.FunctionDef):
-                        self.toplevel[st.name] = (st.lineno, st.end_lineno)
+                        self.toplevel['%s@%d' % (st.name, st.lineno)] = (st.lineno, st.end_lineno)
+                        self.toplevel_names.add(st.name)
+
+    def root_named(self, name):
+        return [r for r in self.toplevel if r.split('@')[0] == name]
 
     def innermost_def(self, line):
         best = None
@@ -282,11 +288,11 @@ def _root_from_code(code, sv):
         return None
     for node in ast.walk(tree):
         if isinstance(node, ast.Call) and isinstance(node.func, ast.Attribute) and node.func.attr == 'FunctionScope' \
-                and node.args and isinstance(node.args[0], ast.Constant) and node.args[0].value in sv.toplevel:
-            return node.args[0].value
+                and node.args and isinstance(node.args[0], ast.Constant) and len(sv.root_named(node.args[0].value)) == 1:
+            return sv.root_named(node.args[0].value)[0]
     for node in ast.walk(tree):
-        if isinstance(node, ast.FunctionDef) and node.name.startswith('ag__') and node.name[4:] in sv.toplevel:
-            return node.name[4:]
+        if isinstance(node, ast.FunctionDef) and node.name.startswith('ag__') and len(sv.root_named(node.name[4:])) == 1:
+            return sv.root_named(node.name[4:])[0]
     return None
 
 
@@ -413,14 +419,14 @@ def _analyse(built, path, obs, out, want_corr):
             # (`with ag__.FunctionScope('<name>', ...)`, else the `ag__<name>` def)
             cv['root'] = _root_from_code(cv['code'], sv)
         conv_roots[cv['root']] = cv
-    entry_root = built['entry']
-    if entry_root not in conv_roots:
+    conv_names = set(r.split('@')[0] for r in conv_roots if r)
+    if built['entry'] not in conv_names:
         out['status'] = 'entry-not-converted'      # conversion failed and malt fell back to the original (C01's domain)
         return out
     U0 = o['frames']
-    units = expected_units(U0, fn_conv, sv.toplevel)
+    units = expected_units(U0, fn_conv, sv.toplevel_names)
     for u in units:
-        if u['conv'] and u['frames'][0][0] not in conv_roots:
+        if u['conv'] and u['frames'][0][0] not in conv_names:
             out['status'] = 'callee-not-converted'   # idem for a callee: the chain is not the one the case describes
             out['detail'] = u['frames'][0][0]
             return out
@@ -514,7 +520,7 @@ def _analyse(built, path, obs, out, want_corr):
         st['maps'] = st.get('maps', 0) + 1
         st['entries'] = st.get('entries', 0) + len(cv['result'])
         if foreign:
-            out['fails'].append({'what': 'source map of %s has keys that are not lines of its generated file: %s' % (root, foreign[:3]),
+            out['fails'].append({'what': 'source map of %s has keys that are not lines of its generated file: %s' % (root.split('@')[0], foreign[:3]),
                                  'cls': 'PENDING-FOREIGN', 'oracle': 'srcmap-keys', 'gen_file_index': convs.index(cv)})
         names_root = sv.names_in(root)
         a, b = sv.toplevel[root]
@@ -560,9 +566,9 @@ def _analyse(built, path, obs, out, want_corr):
         st['orig_stmt_lines'] = st.get('orig_stmt_lines', 0) + len(sv.stmt_lines(root))
         st['orig_stmt_lines_unmapped'] = st.get('orig_stmt_lines_unmapped', 0) + len([l for l in sv.stmt_lines(root) if l not in have_any])
         if missing:
-            bad.append('original statements on lines %s of %s are the origin of no generated statement' % (missing, root))
+            bad.append('original statements on lines %s of %s are the origin of no generated statement' % (missing, root.split('@')[0]))
         for m in bad[:4]:
-            out['fails'].append({'what': 'source map of %s: %s' % (root, m), 'cls': None, 'oracle': 'srcmap'})
+            out['fails'].append({'what': 'source map of %s: %s' % (root.split('@')[0], m), 'cls': None, 'oracle': 'srcmap'})
         if want_corr:
             files, origins, items = items_request(pairs)
             out['corr'].append(('srcmap', 'c12.srcmap %s %s %s' % (sexp(files), sexp(origins), sexp(items)),
